@@ -39,53 +39,67 @@ def lf_range(info, w):
 @harness(PROPERTY, "lf_window", functions=["neuropixel:NP2Converter._process_NP24", "neuropixel:NP2Converter.extract_lfp", "neuropixel:NP2Converter.extract_lfp_sync", "neuropixel:NP2Converter._ind2save"],
          clause="ceil(n/12) samples, every 12th AP sync word, no gap / duplicate across windows; data columns = decimated filter output of the tapered window")
 def h_lf(H):
-    S = H.session("lf.window")
+    _lf_harness(H, "lf.window", None, 2, "")
+    _lf_lemmas(H)
+
+
+@harness(PROPERTY, "lf_window_np21", functions=["neuropixel:NP2Converter._process_NP21", "neuropixel:NP2Converter.extract_lfp", "neuropixel:NP2Converter.extract_lfp_sync", "neuropixel:NP2Converter._ind2save"],
+         clause="the single-shank (NP2.1) window loop: same LF block per window as the multi-shank loop")
+def h_lf_np21(H):
+    _lf_harness(H, "lf.window.np21", neuropixel.NP2Converter._process_NP21, 1, ".np21")
+
+
+def _lf_harness(H, session, fn, nshanks, sfx):
+    S = H.session(session)
 
     def body(it):
-        conv, info = N.mk_converter(it, nshanks=2)
-        w = N.run_window(it, conv, info)
+        conv, info = N.mk_converter(it, nshanks=nshanks)
+        w = N.run_window(it, conv, info, fn=fn, extra_vars={"offset": 0, "kwargs": {}} if fn is not None else None)
         Yf, Yl, K, j = w["Yf"], w["Yl"], w["K"], w["j"]
         a, b = lf_range(info, w)
         raw, napch = info["raw"], info["napch"]
         r, c, t = z3.Ints("r c t")
-        it.ctx.oblige("lf.window_start_multiple_of_12", Yf(j) % 12 == 0, "lemma", "window starts are multiples of the decimation ratio, so the decimation phase is the same in every window")
+        it.ctx.oblige("lf.window_start_multiple_of_12" + sfx, Yf(j) % 12 == 0, "lemma", "window starts are multiples of the decimation ratio, so the decimation phase is the same in every window")
         fl = getattr(it.ctx, "filt_log", [])
         okf = len(fl) == 1
         if not okf:
             raise Unsupported(f"cannot identify the low-pass filter call of extract_lfp (found {len(fl)})")
-        it.ctx.oblige("lf.one_filter_call", z3.BoolVal(okf), "post")
+        it.ctx.oblige("lf.one_filter_call" + sfx, z3.BoolVal(okf), "post")
         L = Yl(j) - Yf(j)
         if okf:
             f = fl[0]
             tpl = A.from_numpy(np.asarray(conv.taper)[:N.TAPER])      # the same two halves the code multiplies with
             tpr = A.from_numpy(np.asarray(conv.taper)[N.TAPER:])
             base = lambda cc, tt: z3.ToReal(raw.read((Yf(j) + tt, cc))) * info["s2v"]     # noqa
-            it.ctx.oblige("lf.filter_input.shape", z3.And(A.T(f["in_shape"][0]) == napch, A.T(f["in_shape"][1]) == L, z3.BoolVal(f["axis"] == -1)), "post",
+            it.ctx.oblige("lf.filter_input.shape" + sfx, z3.And(A.T(f["in_shape"][0]) == napch, A.T(f["in_shape"][1]) == L, z3.BoolVal(f["axis"] == -1)), "post",
                           "the low-pass runs along time over the AP channels of this window")
-            it.ctx.oblige("lf.filter_input.middle", A.forall([c, t], lambda: z3.Implies(z3.And(c >= 0, c < napch, t >= N.TAPER, t < L - N.TAPER), f["input"]((c, t)) == base(c, t))), "post",
+            it.ctx.oblige("lf.filter_input.middle" + sfx, A.forall([c, t], lambda: z3.Implies(z3.And(c >= 0, c < napch, t >= N.TAPER, t < L - N.TAPER), f["input"]((c, t)) == base(c, t))), "post",
                           "away from the two window edges the filter sees the calibrated samples of this window", assume=False)
-            it.ctx.oblige("lf.filter_input.left_taper", A.forall([c, t], lambda: z3.Implies(z3.And(c >= 0, c < napch, t >= 0, t < N.TAPER, L >= 2 * N.TAPER), f["input"]((c, t)) == base(c, t) * tpl.read((t,)))), "post",
+            it.ctx.oblige("lf.filter_input.left_taper" + sfx, A.forall([c, t], lambda: z3.Implies(z3.And(c >= 0, c < napch, t >= 0, t < N.TAPER, L >= 2 * N.TAPER), f["input"]((c, t)) == base(c, t) * tpl.read((t,)))), "post",
                           "first 144 samples multiplied by the rising cosine taper", assume=False)
-            it.ctx.oblige("lf.filter_input.right_taper", A.forall([c, t], lambda: z3.Implies(z3.And(c >= 0, c < napch, t >= L - N.TAPER, t < L, L >= 2 * N.TAPER), f["input"]((c, t)) == base(c, t) * tpr.read((t - (L - N.TAPER),)))), "post",
+            it.ctx.oblige("lf.filter_input.right_taper" + sfx, A.forall([c, t], lambda: z3.Implies(z3.And(c >= 0, c < napch, t >= L - N.TAPER, t < L, L >= 2 * N.TAPER), f["input"]((c, t)) == base(c, t) * tpr.read((t - (L - N.TAPER),)))), "post",
                           "last 144 samples multiplied by the falling cosine taper", assume=False)
         for s, ch in enumerate(info["chns"]):
             gf = info["shank_info"][f"shank{s}"]["lf_open_file"]
             ok = len(gf.writes) == 1
-            it.ctx.oblige(f"lf.one_block_per_window.{s}", z3.BoolVal(ok), "post")
+            it.ctx.oblige(f"lf.one_block_per_window.{s}" + sfx, z3.BoolVal(ok), "post")
             if not ok:
                 continue
             blk = gf.writes[0]
             m = A.T(ch.shape[0])
-            it.ctx.oblige(f"lf.block_shape.{s}", z3.And(z3.BoolVal(blk.dtype == np.dtype("int16")), A.T(blk.shape[0]) == b - a, A.T(blk.shape[1]) == m), "post",
+            it.ctx.oblige(f"lf.block_shape.{s}" + sfx, z3.And(z3.BoolVal(blk.dtype == np.dtype("int16")), A.T(blk.shape[0]) == b - a, A.T(blk.shape[1]) == m), "post",
                           "rows == LF samples [a_j/12, b_j/12) (last window: up to ceil(ns/12))")
-            it.ctx.oblige(f"lf.sync_every_12th.{s}", A.forall([r], lambda: z3.Implies(z3.And(r >= 0, r < b - a), blk.read((r, m - 1)) == raw.read((12 * (a + r), napch)))), "post",
+            it.ctx.oblige(f"lf.sync_every_12th.{s}" + sfx, A.forall([r], lambda: z3.Implies(z3.And(r >= 0, r < b - a), blk.read((r, m - 1)) == raw.read((12 * (a + r), napch)))), "post",
                           "LF sync word m is AP sync word 12 m, exactly", assume=False)
             if okf:
                 lp = fl[0]["out"]
-                it.ctx.oblige(f"lf.data_flow.{s}", A.forall([r, c], lambda: z3.Implies(z3.And(r >= 0, r < b - a, c >= 0, c < m - 1),
+                it.ctx.oblige(f"lf.data_flow.{s}" + sfx, A.forall([r, c], lambda: z3.Implies(z3.And(r >= 0, r < b - a, c >= 0, c < m - 1),
                               blk.read((r, c)) == A.cast_term("float64", "int16", z3.ToReal(__import__("pyvc.core", fromlist=["x"]).round_half_even(lp.read((ch.read((c,)), 12 * (a + r) - Yf(j))) / info["s2v"]))))), "post",
                               "LF sample m of a channel is the filter output at AP sample 12 m of that channel, converted back to counts", assume=False)
     S.explore(body)
+
+
+def _lf_lemmas(H):
     ns, W, K, j = z3.Ints("ns W K j")
     Yf = z3.Function("Yf", z3.IntSort(), z3.IntSort())
     Yl = z3.Function("Yl", z3.IntSort(), z3.IntSort())
